@@ -167,13 +167,13 @@ def crossDayTrace : List Op :=
   [.clock 1000, .write 0 (.new 1 1 0 1 11), .write 0 (.new 2 1 0 2 12), .compute 0, .pull 1 0 1,
    .clock 86401000, .write 0 (.upd 1 3 13 none), .compute 0, .pull 1 0 1]
 
-/-- **C09_breaks_oldDayUnmarked** (#13). After the synchronised cross-day update, peer 1's day 0 still says two
-    entries although one row is left on that day; with the old day marked it says one. -/
+/-- **C09_breaks_oldDayUnmarked** (#13, fixed in /repo by 8123d04 — kept as a regression witness). With the old
+    day of a synchronised cross-day update left unmarked, peer 1's day 0 still says two entries although one
+    row is left on that day; with the old day marked (the code now) it says one. -/
 theorem C09_breaks_oldDayUnmarked :
-    let w := World.run Defects.asImplemented (World.init [true, true]) crossDayTrace
+    let w := World.run { Defects.asImplemented with oldDayUnmarked := true } (World.init [true, true]) crossDayTrace
     rowOf w 1 k10 = some (2, false) ∧ ((w.peer 1).sigs 1 0 0).length = 1 ∧
-    rowOf (World.run { Defects.asImplemented with oldDayUnmarked := false } (World.init [true, true]) crossDayTrace) 1 k10
-      = some (1, false) := by
+    rowOf (World.run Defects.asImplemented (World.init [true, true]) crossDayTrace) 1 k10 = some (1, false) := by
   decide
 
 /-- row 1 created on day 0 and recomputed; on day 1 a reference deletion that names no existing reference -/
@@ -197,13 +197,14 @@ def otherVersionTrace : List Op :=
    .clock 86401000, .write 1 (.upd 1 3 13 none), .write 1 (.new 3 1 0 4 15), .compute 1,
    .clock 172801000, .write 0 (.del 1 14), .compute 0, .pull 1 0 1]
 
-/-- **C09_breaks_syncDeletionLocalDayUnmarked** (new). The synchronised deletion record removes peer 1's day-1
-    version but marks the record's day 0 and the deletion day 2: day 1 keeps counting two entries. -/
+/-- **C09_breaks_syncDeletionLocalDayUnmarked** (found by the model, fixed in /repo by 1a9cbe6 — regression
+    witness). A synchronised deletion record removes peer 1's day-1 version; marking only the record's day 0
+    and the deletion day 2 leaves day 1 counting two entries; with the local day marked (the code now) one. -/
 theorem C09_breaks_syncDeletionLocalDayUnmarked :
-    let w := World.run Defects.asImplemented (World.init [true, true]) otherVersionTrace
+    let w := World.run { Defects.asImplemented with syncDeletionLocalDayUnmarked := true } (World.init [true, true])
+      otherVersionTrace
     rowOf w 1 k11 = some (2, false) ∧ ((w.peer 1).sigs 1 0 1).length = 1 ∧
-    rowOf (World.run { Defects.asImplemented with syncDeletionLocalDayUnmarked := false } (World.init [true, true])
-      otherVersionTrace) 1 k11 = some (1, false) := by
+    rowOf (World.run Defects.asImplemented (World.init [true, true]) otherVersionTrace) 1 k11 = some (1, false) := by
   decide
 
 end Discret.Sync
